@@ -10,6 +10,7 @@ import (
 
 	"verif/harness/core"
 	"verif/harness/plugin"
+	"verif/harness/rapidx"
 	"verif/harness/schema"
 )
 
@@ -107,7 +108,7 @@ func runC16(c *core.Ctx) error {
 	for k := 0; k < chunks; k++ {
 		var last *c16Case
 		n := 0
-		res := core.RapidCheck("C16", total/chunks, uint64(c.SubSeed(k)), 60*time.Second, func(t *rapid.T) {
+		res := rapidx.Check("C16", total/chunks, uint64(c.SubSeed(k)), 60*time.Second, func(t *rapid.T) {
 			s := schema.GenerateDegenerate(t, "d0001", avoid)
 			params := c16Params(t, s, avoid, c.Ev)
 			n++
